@@ -1,7 +1,7 @@
 (** Layer R proofs: C16, the leak conjunct -- examples: non-vacuity of [no_leak_settled], necessity of its hypotheses,
     and the witness that "no actor at all" is NOT sufficient for "no leak report" (finding EpilogueDepth). *)
 From Coq Require Import ZArith NArith List Bool.
-From Stk Require Import Lib.U R.Syntax R.Rt R.Mon R.C16Proofs R.LinFlags R.LinOnce3 R.C05Proofs R.F8Witness R.C16Leak R.C16Leak2 R.C16Leak3.
+From Stk Require Import Lib.U R.Syntax R.Rt R.Mon R.C16Proofs R.LinFlags R.LinOnce3 R.LinC05Core R.C05Proofs R.F8Witness R.C16Leak R.C16Leak2 R.C16Leak3.
 Import ListNotations.
 Local Open Scope Z_scope.
 
@@ -14,6 +14,20 @@ Proof.
   reflexivity.
 Qed.
 Print Assumptions C16_ok_settled.
+
+(** the trace hypothesis of C05 / C03 ([no_container_leak]) for these runs *)
+Theorem no_container_leak_settled : forall (p : list top) (fuel : nat) (t : list ev),
+  exec DGlobal fuel p = Done t -> settled t = true -> no_actor t = true -> no_container_leak t.
+Proof.
+  intros p fuel t E ST NA kd id IN. pose proof (no_lin_leak p fuel t E ST NA kd id IN) as K.
+  unfold leak_kind. unfold K16_lin in K.
+  destruct (N.eqb kd LK_CLO), (N.eqb kd LK_VAL), (N.eqb kd LK_RET), (N.eqb kd LK_NOTIFY); try discriminate K; reflexivity.
+Qed.
+
+Theorem C05_settled : forall (p : list top) (fuel : nat) (t : list ev),
+  exec DGlobal fuel p = Done t -> NoDup (ret_ids t) -> settled t = true -> no_actor t = true -> C05_ok t = true.
+Proof. intros p fuel t E ND ST NA. eapply C05_proved; eauto. eapply no_container_leak_settled; eauto. Qed.
+Print Assumptions C05_settled.
 
 (* a program without actors: deferred / lazy / idle closures, fixed and variable timers (one fires, one is deleted, one is
    dropped with the Stakker), nested closures, Rets with closure handlers (sent, dropped inside a queued closure, dropped
